@@ -357,13 +357,13 @@ def main(argv=None):
         else:
             want = ecs[0][3]
         cases.append((how, mutated, tk, want))
-    res = drv.ask(["parsetoks", [[tk, want] for _, _, tk, want in cases]])["results"]
+    res = drv.ask(["parsestr", [[core.Q(mutated), want, tk] for _, mutated, tk, want in cases]])["results"]
     for (how, mutated, tk, want), r in zip(cases, res):
         rep.case(key=("syntax", mutated), nontrivial=True)
         rep.count("syntax_fault:" + how + (":rejected" if want == "none" else ":accepted"))
-        if r["verdict"] != "agree" or not r["roundtrip"]:
+        if r["verdict"] != "agree" or not r["roundtrip"] or not r["lexagree"]:
             rep.violation(f"a right-hand side with one token changed ({how}): Lark {'rejects' if want == 'none' else 'accepts'} it, the parser mirror: {r['verdict']}  [{mutated[:80]}]",
-                          {"kind": "correspondence", "relation": "Parse.parse_expr vs Lark", "expression": mutated, "failing_input": None},
+                          {"kind": "correspondence", "relation": "Lex.lex + Parse.parse_expr vs Lark", "expression": mutated, "failing_input": None},
                           failing_input_found=False)
     drv.close()
     return rep.finish(
